@@ -26,6 +26,9 @@ def digits(rng, long_ok=False):
     if long_ok and r < 0.93:
         n = rng.randint(19, 40)
         return "".join(rng.choice("0123456789") for _ in range(n))
+    if long_ok and r < 0.965:
+        # a small number written with 20 or more digits: the value counts, not the length of the run
+        return "0" * rng.randint(17, 30) + str(rng.randint(0, 99))
     n = rng.randint(15, 18)
     return rng.choice("123456789") + "".join(rng.choice("0123456789") for _ in range(n - 1))
 
